@@ -536,6 +536,19 @@ func callBuiltin(caller *frame, fn *ssa.Builtin, args []value) value {
 		for i, e := range add {
 			cp[i] = copyVal(e)
 		}
+		if caller != nil && caller.th.racing() {
+			// race detector: the appended elements are read; when the backing array has room
+			// the append writes into cells that other slices of the same array may share
+			for i := range add {
+				caller.th.raceAccess(&add[i], false, nil)
+			}
+			if len(x)+len(cp) <= cap(x) {
+				ext := x[:len(x)+len(cp)]
+				for i := len(x); i < len(ext); i++ {
+					caller.th.raceAccess(&ext[i], true, nil)
+				}
+			}
+		}
 		return append(x, cp...)
 
 	case "copy":
@@ -548,6 +561,12 @@ func callBuiltin(caller *frame, fn *ssa.Builtin, args []value) value {
 			}
 		case []value:
 			src = y
+		}
+		if caller != nil && caller.th.racing() {
+			for i := 0; i < len(dst) && i < len(src); i++ {
+				caller.th.raceAccess(&src[i], false, nil)
+				caller.th.raceAccess(&dst[i], true, nil)
+			}
 		}
 		n := copy(dst, src)
 		return BV(64, uint64(n))
